@@ -46,6 +46,40 @@ fn ci_of<F: Fl>(p: Prod, kind: Kind, level: f64, a: &Vec<F>, b: &Vec<F>) -> Out<
     .map(|i| F::obs(&i))
 }
 
+/// The same interval from a state assembled observation by observation with `+`, the accumulated state on the right
+/// (`single + total`): the way a fold over per-item states builds it. Reordering the observations must not matter for a
+/// state built this way either.
+fn ci_folded<F: Fl>(p: Prod, kind: Kind, level: f64, a: &Vec<F>, b: &Vec<F>) -> Out<Obs> {
+    let c = conf(kind, level);
+    match p {
+        Prod::Arithmetic => call(|| {
+            let mut tot = Arithmetic::<F>::new();
+            for x in a.iter() {
+                let mut s = Arithmetic::<F>::new();
+                stats_ci::StatisticsOps::append(&mut s, *x)?;
+                tot = s + tot;
+            }
+            tot.ci_mean(c)
+        }),
+        Prod::Unpaired => call(|| {
+            let mut tot = Unpaired::<F>::default();
+            for x in a.iter() {
+                let mut s = Unpaired::<F>::default();
+                s.append_a(*x)?;
+                tot = s + tot;
+            }
+            for y in b.iter() {
+                let mut s = Unpaired::<F>::default();
+                s.append_b(*y)?;
+                tot = s + tot;
+            }
+            tot.ci_mean(c)
+        }),
+        _ => return ci_of::<F>(p, kind, level, a, b),
+    }
+    .map(|i| F::obs(&i))
+}
+
 fn ulps<F: Fl>(a: f64, b: f64) -> u64 {
     if a == b {
         return 0;
@@ -365,7 +399,7 @@ fn judge<F: Fl>(c: &Case, l: &mut Local) {
                 })
                 .collect()
         };
-        for p in perms.iter() {
+        for (pi, p) in perms.iter().enumerate() {
             let pa: Vec<F> = p.iter().map(|i| a[*i]).collect();
             // paired: the pairs move together; unpaired: b is shuffled independently
             let pb: Vec<F> = if c.prod == Prod::Paired {
@@ -387,9 +421,14 @@ fn judge<F: Fl>(c: &Case, l: &mut Local) {
                         continue;
                     }
                 };
-                let s = ci_of::<F>(c.prod, *kind, *level, &pa, &pb);
+                // the second permutation of every case goes through a state folded from per-observation states
+                let folded = pi == 1 && matches!(c.prod, Prod::Arithmetic | Prod::Unpaired);
+                let s = if folded { ci_folded::<F>(c.prod, *kind, *level, &pa, &pb) } else { ci_of::<F>(c.prod, *kind, *level, &pa, &pb) };
                 l.eval();
                 l.count("reordering judged");
+                if folded {
+                    l.count("reordering judged on a state folded from per-observation states");
+                }
                 let tol = 2.0 * t0;
                 let ok = match &s {
                     Out::Ok(s) => s.kind == o.kind && (o.kind == Kind::Lower || (s.lo - o.lo).abs() <= tol) && (o.kind == Kind::Upper || (s.hi - o.hi).abs() <= tol),
